@@ -579,6 +579,12 @@ def check(run):
                 cases.append(("timedep", name, n, method, s, run.tier))
             for method in ("tdvp_vmf", "tdvp_mu_vmf"):
                 cases.append(("vmf_rhs", name, n, method, s, run.tier))
+        # complex Hermitian Hamiltonians (complex hopping amplitudes): every scheme against the dense propagator, and the density-operator form
+        for name, n in ([("spinqn-flux", 4)] if run.tier == "quick" else [("spinqn-flux", 4), ("holstein-flux", 4)]):
+            for method in METHODS:
+                cases.append(("accuracy", name, n, method, s, run.tier))
+            for method in ("prop_and_compress", "tdvp_ps"):
+                cases.append(("mpdm", name, n, method, s, run.tier))
     run_cases(run, worker, cases)
     from props import C09_sym
     guarded(run, C09_sym.prove)
